@@ -40,7 +40,7 @@ fn clampw(v: f64, bps: usize) -> i32 {
     v.round().clamp(lo, hi) as i32
 }
 
-pub const FAMILIES: [&str; 22] = [
+pub const FAMILIES: [&str; 23] = [
     "silence",
     "dc_min",
     "dc_max",
@@ -63,6 +63,7 @@ pub const FAMILIES: [&str; 22] = [
     "integrated",
     "loud_then_quiet",
     "sine_loud_noise",
+    "alt_level",
 ];
 
 /// One channel of `len` samples of family `fam` at width `bps`.
@@ -169,6 +170,24 @@ pub fn gen_channel(rng: &mut Rng, fam: &str, bps: usize, len: usize) -> Vec<i32>
                     }
                 }
                 *x = s.clamp(lo as i64, hi as i64) as i32;
+            }
+        }
+        "alt_level" => {
+            // noise whose level switches between two values every `seg` samples (non-stationary:
+            // high Rice partition orders, non-unimodal cost-vs-order curves, nearly incompressible
+            // blocks with a few cheap partitions)
+            let seg = *rng.pick(&[32usize, 64, 64, 128, 256]);
+            let a1 = full * (0.5 + 0.5 * rng.f64());
+            let a2 = full * match rng.usize_below(3) {
+                0 => 0.3 + 0.5 * rng.f64(),
+                1 => 0.01 * rng.f64(),
+                _ => rng.f64(),
+            };
+            let uniform = rng.flip();
+            for (t, x) in v.iter_mut().enumerate() {
+                let a = if (t / seg) % 2 == 0 { a1 } else { a2 };
+                let n = if uniform { 2.0 * rng.f64() - 1.0 } else { 0.5 * rng.gauss() };
+                *x = clampw(a * n, bps);
             }
         }
         "loud_then_quiet" => {
